@@ -196,7 +196,9 @@ def Disciplined (d : Data) (last : Option Data) (seen : List Ind) : List (Ev Ind
 
 end proxy
 
-/-! ### the call sites that change the training data (HAND-MODELLED from the sources)
+/-! ### the call sites that change the training data (hand-written table, used by the call-site
+      harness to predict WHICH step changes / clears; the skeletons extracted from the AST and the
+      theorems about them are in Sites.lean / Gen.lean / Props.lean)
 
   src/kernel/gp/src/dss.cc              dss::init / shake / close
   src/kernel/gp/src/holdout_validation.cc   holdout_validation::init  (shake/close: base class, nothing)
@@ -229,7 +231,7 @@ def Site.clears : Site → Bool
   | .dssInit _ => true
   | .dssShake gap gen => !(gen == 0 || gen % gap != 0)
   | .dssClose _ => true
-  | .holdoutInit _ => false          -- holdout_validation has no access to the evaluators
+  | .holdoutInit run => run == 0     -- since `fix: holdout_validation::init clears the cached training evaluator`
   | .holdoutShake _ => false
   | .holdoutClose _ => false
 
